@@ -173,7 +173,7 @@ func (k *msgServer) MsgAllocate(c context.Context, msg *types.MsgAllocateRequest
 	}
 
 	// Update the allocation for the sender after deducting the allocated bytes.
-	fromAlloc.GrantedBytes = availableBytes.Sub(msg.Bytes)
+	fromAlloc.GrantedBytes = grantedBytes.Sub(msg.Bytes)
 	if fromAlloc.GrantedBytes.LT(fromAlloc.UtilisedBytes) {
 		return nil, types.NewErrorInvalidAllocation(subscription.GetID(), fromAddr)
 	}
